@@ -1108,6 +1108,9 @@ package regexp2
 //@     invariant start <= end && end <= endAt && end - start <= maxRepeat && maxRepeat > 0
 //@     decreases endAt - end
 //@   loop 1:
+//@     invariant start < end && end <= endAt && alt.MinRepeat <= end - start
+//@     decreases end
+//@   loop 2:
 //@     invariant 0 <= matchStart && matchStart <= start
 //@     decreases matchStart
 
@@ -1121,6 +1124,7 @@ package regexp2
 //@     decreases endAt - i
 //@   loop 1:
 //@     invariant startAt <= i && i < endAt && -1 <= rangeindex && rangeindex < len(landmark.Alternatives)
+//@     invariant found ==> 0 <= best.Start && best.Start <= best.CoreStart && best.CoreStart == i && i < best.End && best.End <= endAt
 //@     decreases len(landmark.Alternatives) - rangeindex
 
 //@ spec func ChainOK(c *syntax.RequiredLandmarkChain) bool = c != nil ==> (c.LeadingLoopSet != nil ==> syntax.SetOK(c.LeadingLoopSet)) && forall k int :: 0 <= k && k < len(c.Landmarks) ==> LandmarkOK(c.Landmarks[k])
